@@ -145,6 +145,9 @@ impl Engine for C09Engine {
     fn prop(&self) -> &'static str {
         "C09"
     }
+    fn fuzz(&self) -> Option<FuzzSpec> {
+        Some(FuzzSpec { target: "fz_misc", max_len: 109, target_prefix: vec![0], engine_prefix: vec![] })
+    }
     fn level(&self) -> &'static str {
         "fault_enumeration"
     }
@@ -194,7 +197,7 @@ impl Engine for C09Engine {
     }
     fn cases(&self, tier: Tier) -> u32 {
         match tier {
-            Tier::Quick => 400,
+            Tier::Quick => 600,
             Tier::Thorough => 8000,
         }
     }
@@ -318,6 +321,9 @@ fn trace_diff(j: usize, solo: &[TraceItem], inter: &[TraceItem], how: &str) -> O
 impl Engine for C20Engine {
     fn prop(&self) -> &'static str {
         "C20"
+    }
+    fn fuzz(&self) -> Option<FuzzSpec> {
+        Some(FuzzSpec { target: "fz_misc", max_len: 400, target_prefix: vec![3], engine_prefix: vec![] })
     }
     fn strategy(&self, _tier: Tier) -> BoxedStrategy<Vec<u8>> {
         //            lay typ tw  sl  tf  str alc dea gro shr rst lim pln prb hov rrf
